@@ -370,6 +370,9 @@ func (g *tmplGen) genSet() *TmplSet {
 	all := g.frags
 	for i, f := range all {
 		g.frags = all[:i]
+		if g.r.Chance(6) {
+			g.frags = all[:i+1] // the fragment may include itself: must end with an error, not a crash
+		}
 		g.depth = 2
 		g.n = 20
 		ts.FragTree[f] = g.siblings(1 + g.r.Intn(3))
